@@ -93,6 +93,8 @@ func sameState(a, b *state) bool {
 // ---- analysis units (functions and goroutine bodies)
 
 type access struct {
+	Before []string // signals (channel fields of the object) only this goroutine gives, later
+	After  []string // signals already observed
 	Acq   map[string]string // lock name -> position of the Lock() call of the critical section ("entry": held by the caller)
 	Loc   string            // "Type.field" or "var name"
 	Write bool
@@ -143,7 +145,9 @@ type walker struct {
 	record  bool
 	frames  []*frame
 	escaped map[types.Object]bool // fresh locals that escaped in the current statement
+	winner  map[types.Object][]types.Object // `loaded` flag of v, loaded := m.LoadOrStore(k, x) -> variables naming the stored object
 	noEsc   int                   // >0 while walking arguments of standard-library calls
+	inDefer bool                  // walking a deferred call: it runs at function exit
 }
 
 type analysis struct {
@@ -154,6 +158,10 @@ type analysis struct {
 	classes   map[string]bool          // class name -> singleton?
 	runCalls  map[string]int           // call sites of the -single functions
 	pkgVars   map[types.Object]bool    // tracked package-level variables
+	syncUses  map[string]int           // locations synchronised by construction -> number of uses
+	foreignClose map[string]string     // channel field closed at a point where the closer is not known to be the only one
+	closed    map[string]int           // channel field -> number of close sites
+	sentTo    map[string]bool          // channel fields that are sent to (a receive does not imply "closed")
 }
 
 func keyOfObj(o types.Object) string {
@@ -282,38 +290,53 @@ func sortedLocks(m map[lockItem]bool) []lockItem {
 // ---- recording
 
 func (w *walker) access(st *state, loc string, write bool, base ast.Expr, pos token.Pos, isGlobal bool) {
-	if !w.record || st.dead {
-		return
-	}
-	a := access{Loc: loc, Write: write, Pos: pos, Unit: w.u}
-	if w.u.isInit {
-		a.Init = true
-	}
+	key, init := "", false
 	if base != nil {
 		if id, ok := unparen(base).(*ast.Ident); ok && id != nil {
 			if root := info.ObjectOf(id); root != nil && st.fresh[root] {
-				a.Init = true
+				init = true
 			}
+		}
+		key, _ = exprKey(base)
+	}
+	w.accessKey(st, loc, write, key, init, pos, isGlobal || base == nil)
+}
+
+func (w *walker) accessKey(st *state, loc string, write bool, key string, init bool, pos token.Pos, isGlobal bool) {
+	if !w.record || st.dead {
+		return
+	}
+	a := access{Loc: loc, Write: write, Pos: pos, Unit: w.u, Init: init || w.u.isInit}
+	if !isGlobal {
+		a.Key = key
+	}
+	for it := range st.held {
+		if strings.HasPrefix(it.Mu, "<-") || strings.HasPrefix(it.Mu, "!") {
+			if !isGlobal && it.Key == key {
+				if it.Mu[0] == '!' {
+					a.Before = append(a.Before, it.Mu[1:])
+				} else {
+					a.After = append(a.After, it.Mu[2:])
+				}
+			}
+			continue
+		}
+		if it.Glob || (!isGlobal && it.Key == key) {
+			a.Locks = append(a.Locks, it)
 		}
 	}
-	if base != nil && !isGlobal {
-		k, _ := exprKey(base)
-		a.Key = k
-		for it := range st.held {
-			if it.Glob || it.Key == k {
-				a.Locks = append(a.Locks, it)
-			}
-		}
-	} else {
-		for it := range st.held {
-			if it.Glob {
-				a.Locks = append(a.Locks, it)
-			}
-		}
-	}
+	sort.Strings(a.Before)
+	sort.Strings(a.After)
 	sort.Slice(a.Locks, func(i, j int) bool { return a.Locks[i].Mu < a.Locks[j].Mu })
 	a.Acq = acqOf(st, a.Locks)
 	w.u.accesses = append(w.u.accesses, a)
+}
+
+// syncUse counts uses of locations that are synchronised by construction (atomics, sync.Map, mutex-typed fields)
+func (w *walker) syncUse(loc, kind string) {
+	if w.record {
+		w.an.syncUses[loc+" ["+kind+"]"]++
+	}
 }
 
 func (w *walker) invalidate(st *state, o types.Object) {
